@@ -1121,6 +1121,27 @@ class _UnionArray(Content):
     def sparse_index(length):
         return Index64(np.arange(length, dtype=np.int64))
 
+    _which = 2
+
+    @classmethod
+    def nested_tags_index(cls, offsets, counts):
+        """the real static UnionArrayOf<T, I>::nested_tags_index (kernel UnionArray_nestedfill_tags_index_64)"""
+        import ctypes
+        L = akb.lib()
+        if not getattr(L, "_akv_nested_ready", False):
+            L.akb_union_nested_tags_index.argtypes = [ctypes.POINTER(akb.AkbArgs)]
+            L.akb_union_nested_tags_index.restype = ctypes.c_int
+            L._akv_nested_ready = True
+        idx = [_as_index(Index64, offsets)._arg()] + [_as_index(Index64, c)._arg() for c in counts]
+        a, keep = akb.pack([cls._which], (), (), (), idx)
+        if L.akb_union_nested_tags_index(ctypes.byref(a)) != 0:
+            try:
+                akb._raise()
+            except akb.BridgeError as err:
+                raise _translate(err) from None
+        res = akb._collect()
+        return (_index_out(res.x[0]), _index_out(res.x[1]))
+
     @staticmethod
     def regular_index(tags):
         t = np.asarray(tags)
@@ -1134,6 +1155,7 @@ class _UnionArray(Content):
 
 class UnionArray8_32(_UnionArray):
     _index = Index32
+    _which = 0
 
     @staticmethod
     def regular_index(tags):
@@ -1146,6 +1168,7 @@ class UnionArray8_32(_UnionArray):
 
 class UnionArray8_U32(_UnionArray):
     _index = IndexU32
+    _which = 1
 
     @staticmethod
     def regular_index(tags):
